@@ -132,7 +132,8 @@ def gen(data: bytes):
     mol = rdgen.mol_from_smiles(smi)
     n = mol.GetNumAtoms() if mol is not None else 1
     return {"src": "organic" if k == 2 else "ez", "smiles": smi,
-            "ids": _pos_ids(tp, n), "bond_orders": k == 3}
+            "ids": _pos_ids(tp, n), "bond_orders": k == 3,
+            "tseed": tp.below(1 << 30)}
 
 
 def shrink(case):
@@ -188,7 +189,10 @@ def source_graph(ctx, case):
         m.bond_stereo = keep
     else:
         m.bond_stereo = {}
-    r = rc.from_model(m)
+    # any equivalent spelling of the descriptors, any insertion order
+    tp = S.seed_tape(case.get("tseed", 0))
+    m, _ = S.respell_model(tp, m, improper=True)
+    r = S.shuffled_recipe(tp, m)
     return rc.build(r), m
 
 
